@@ -368,3 +368,16 @@ theorem C04_lockstep_pair_init (a b : P2P) (RA RB : Nat → List (Input × Input
 
 end Ggrs
 
+namespace Ggrs
+
+/-- **Non-vacuity of the lockstep pair.** Two freshly built lockstep sessions satisfy the invariant;
+both users submit inputs, both calls stall, B's frame 0 — read off B's queue, where the stalled
+call has put it — arrives at A, and A's next call simulates frame 0 on the full confirmed row. -/
+theorem C04_lockstep_pair_nonvacuous :
+    LkPPInv ((demoLk, ⟨0, fun _ => []⟩), (demoLkPeer, ⟨0, fun _ => []⟩)) ∧
+    (∃ tA' tB', LkPStar ((demoLk, ⟨0, fun _ => []⟩), (demoLkPeer, ⟨0, fun _ => []⟩)) ((demoLk2, tA'), (demoLkB1, tB'))) ∧
+    demoLk2.sync.currentFrame = 1 :=
+  ⟨C04_lockstep_pair_init demoLk demoLkPeer _ _ 2 rfl rfl rfl rfl rfl rfl rfl rfl rfl rfl, demo_lkpair_run _ _, demo_lk_facts.2.2.2⟩
+
+end Ggrs
+
